@@ -149,8 +149,12 @@ Local Open Scope ring_scope.
 
 
 def _mx_trace(which):
-    """which = 'icov' | 'epm'.  Returns (entry dict, Trace, param nodes, return nodes, extra info)."""
-    import sys as _sys
+    """which = 'icov' | 'epm'.  Returns (entry dict, Trace, param nodes, return nodes).
+    Robust against behaviour-preserving rewrites of the traced functions: the parameters are created up
+    front in a FIXED order (the generated Section variables and hence the argument order of the generated
+    definitions do not depend on the order in which the code reads the model attributes), only the OUTPUT
+    definitions are emitted (no names derived from local variables), and the equivalent numpy spellings are
+    accepted (hstack / concatenate, q**2 / np.square(q) / q*q, G @ np.diag(s) / G * s, .T / .transpose())."""
     import gen_mx as G
     from pyins.error_model import InsErrorModel
     t = G.Trace(MX_DIMS)
@@ -162,78 +166,128 @@ def _mx_trace(which):
         pn.append((name, (rd,) if cd is None else (rd, cd), nd))
         return G.SymMat(nd, G.Buf(input=name))
     info = dict(diag=None, cpm=None)
+    if which == 'icov':
+        V = dict(T=var('T', 'ni', 'd9'), Ppva=var('Ppva', 'd9', 'd9'), Pg=var('Pg', 'ng', 'ng'), Pa=var('Pa', 'na', 'na'))
+    else:
+        V = dict(Fii=var('Fii', 'ni', 'ni'), Fig=var('Fig', 'ni', 'd3'), Fia=var('Fia', 'ni', 'd3'),
+                 Hg=var('Hg', 'd3', 'ng'), Ha=var('Ha', 'd3', 'na'), Fg=var('Fg', 'ng', 'ng'), Fa=var('Fa', 'na', 'na'),
+                 Jg=var('Jg', 'd3', 'vg'), Ja=var('Ja', 'd3', 'va'), Gg=var('Gg', 'ng', 'qg'), Ga=var('Ga', 'na', 'qa'),
+                 v_g=var('v_g', 'vg'), v_a=var('v_a', 'va'), q_g=var('q_g', 'qg'), q_a=var('q_a', 'qa'))
 
     class DiagBuilder:
         """np.zeros((9, 9)) of _initialize_covariance: scalar assignments on the diagonal only"""
 
         def __init__(self):
             self.items = {}
-            self.mat = None
+            self.used = False
 
         def __setitem__(self, key, val):
-            if self.mat is not None or not (isinstance(key, tuple) and len(key) == 2 and key[0] == key[1]
-                                            and isinstance(key[0], int)):
+            if self.used or not (isinstance(key, tuple) and len(key) == 2 and key[0] == key[1]
+                                 and isinstance(key[0], (int, np.integer))):
                 raise G.TraceError(f"P_pva: assignment {key!r} is not a diagonal element")
-            if key[0] in self.items:
+            if int(key[0]) in self.items:
                 raise G.TraceError("P_pva: diagonal element assigned twice")
-            self.items[key[0]] = float(val)
+            self.items[int(key[0])] = float(val)
 
         def use(self):
-            if self.mat is None:
-                self.mat = var('Ppva', 'd9', 'd9')
-                info['diag'] = dict(self.items)
-            return self.mat
+            self.used = True
+            info['diag'] = dict(self.items)
+            return V['Ppva']
 
     class QVec:
-        def __init__(self, node):
+        """the stacked noise intensities; .squared after q**2 / np.square(q) / q*q"""
+
+        def __init__(self, node, squared=False):
             self.node = node
-            self.squared = False
+            self.squared = squared
+
+        def _sq(self):
+            if self.squared:
+                raise G.TraceError("the stacked intensities are squared twice")
+            return QVec(self.node, True)
 
         def __pow__(self, p):
-            if p != 2 or self.squared:
+            if p != 2:
                 raise G.TraceError("q ** p: only the square of the stacked intensities is modelled")
-            o = QVec(self.node)
-            o.squared = True
-            return o
+            return self._sq()
+
+        def __mul__(self, o):
+            if o is self:
+                return self._sq()
+            raise G.TraceError("product of the stacked intensities with something else")
+
+    def diag_node(v):
+        if not isinstance(v, QVec) or not v.squared:
+            raise G.TraceError("only diag(q ** 2) of the stacked intensities is modelled")
+        return G.SymMat(G.Node(t, 'prim', ('diag_sq', (v.node,)), v.node.rdim, v.node.rdim))
+
+    def stack(parts, axis=0):
+        if axis not in (0, None):
+            raise G.TraceError("concatenate: axis")
+        nodes = [G._mat(p_, 'hstack') for p_ in parts]
+        if any(n_.cdim is not None for n_ in nodes):
+            raise G.TraceError("hstack / concatenate: only vectors")
+        rdims = tuple(n_.rdim for n_ in nodes)
+        blocks = {(i, 0): n_ for i, n_ in enumerate(nodes)}
+        rdim = tuple(a for d in rdims for a in d)
+        return QVec(G.Node(t, 'grid', (rdims, (None,), blocks), rdim, None))
 
     class Np(G._NpProxy):
         def zeros(self, shape, dtype=float, order='C'):
-            if tuple(shape) == (9, 9) if not isinstance(shape, int) else False:
+            if not isinstance(shape, (int, np.integer)) and tuple(shape) == (9, 9):
                 return DiagBuilder()
             return G._NpProxy.zeros(self, shape, dtype, order)
 
         def hstack(self, parts):
-            nodes = [G._mat(p, 'hstack') for p in parts]
-            if any(n.cdim is not None for n in nodes):
-                raise G.TraceError("hstack: only vectors")
-            rdims = tuple(n.rdim for n in nodes)
-            blocks = {(i, 0): n for i, n in enumerate(nodes)}
-            rdim = tuple(a for d in rdims for a in d)
-            return QVec(G.Node(t, 'grid', (rdims, (None,), blocks), rdim, None))
+            return stack(parts)
+
+        def concatenate(self, parts, axis=0):
+            return stack(parts, axis)
+
+        def square(self, v):
+            if isinstance(v, QVec):
+                return v._sq()
+            raise G.TraceError("np.square of a matrix")
+
+        def power(self, v, p):
+            return v ** p
 
         def diag(self, v):
-            if not isinstance(v, QVec) or not v.squared:
-                raise G.TraceError("np.diag: only diag(q ** 2) is modelled")
-            return G.SymMat(G.Node(t, 'prim', ('diag_sq', (v.node,)), v.node.rdim, v.node.rdim))
+            return diag_node(v)
 
-    class MatMulDiag(G.SymMat):
-        pass
-    # T @ P_pva: P_pva is a DiagBuilder -> give SymMat a reflected product with it
-    orig_matmul = G.SymMat.__matmul__
+        def multiply(self, a, b):
+            return a * b
+
+        def transpose(self, a):
+            return a.T
+
+        def matmul(self, a, b):
+            return a @ b
+
+        def dot(self, a, b):
+            return a @ b
+
+    orig_matmul, orig_mul, orig_rmul = G.SymMat.__matmul__, G.SymMat.__mul__, G.SymMat.__rmul__
 
     def matmul(self, o):
         if isinstance(o, DiagBuilder):
             o = o.use()
         return orig_matmul(self, o)
 
+    def mul(self, o):
+        # G * s with s = squared stacked intensities: scaling of the columns = G @ diag(s)
+        if isinstance(o, QVec):
+            return orig_matmul(self, diag_node(o))
+        return orig_mul(self, o)
+
     class ErrorModel:
         n_states = t.dims['ni']
 
         def transform_to_internal(self, pva):
-            return var('T', 'ni', 'd9')
+            return V['T']
 
         def system_matrices(self, pva):
-            return var('Fii', 'ni', 'ni'), var('Fig', 'ni', 'd3'), var('Fia', 'ni', 'd3')
+            return V['Fii'], V['Fig'], V['Fia']
     for a in ('DRN', 'DRE', 'DRD', 'DVN', 'DVE', 'DVD', 'DROLL', 'DPITCH', 'DHEADING'):
         setattr(ErrorModel, a, getattr(InsErrorModel, a))
 
@@ -242,63 +296,41 @@ def _mx_trace(which):
             self.tag = s
             self.n_states, self.n_noises, self.n_output_noises = t.dims[ns], t.dims[nq], t.dims[nv]
             if which == 'icov':
-                self.P = var('P' + s, ns, ns)
+                self.P = V['P' + s]
             else:
-                self.F = var('F' + s, ns, ns)
-                self.G = var('G' + s, ns, nq)
-                self.J = var('J' + s, 'd3', nv)
-                self.v = var('v_' + s, nv)
-                self.q = var('q_' + s, nq)
-                self._H = None
-                self._ns = ns
+                self.F, self.G, self.J = V['F' + s], V['G' + s], V['J' + s]
+                self.v, self.q = V['v_' + s], V['q_' + s]
 
         def output_matrix(self, readings=None):
-            if self._H is not None:
-                raise G.TraceError("output_matrix called twice")
-            self._H = var('H' + self.tag, 'd3', self._ns)
-            return self._H
+            return V['H' + self.tag]
 
     class Kalman:
         @staticmethod
-        def compute_process_matrices(F, Q, dt):
+        def compute_process_matrices(*args, **kw):
             if info['cpm'] is not None:
                 raise G.TraceError("compute_process_matrices called twice")
-            info['cpm'] = (F, Q, dt)
-            return F, Q
+            vals = list(args) + list(kw.values())
+            if len(vals) != 3:
+                raise G.TraceError("compute_process_matrices: three arguments expected")
+            info['cpm'] = tuple(vals)
+            return vals[0], vals[1]
     em = ErrorModel()
     gm = SensorModel('g', 'ng', 'qg', 'vg')
     am = SensorModel('a', 'na', 'qa', 'va')
     fn = filters._initialize_covariance if which == 'icov' else filters._compute_error_propagation_matrices
-    code = fn.__code__
-
-    def scan(frame):
-        for v_, val in list(frame.f_locals.items()):
-            if isinstance(val, G.SymMat) and not val._buf.dead:
-                val._named(v_)
-
-    def local(frame, event, arg):
-        if event in ('line', 'return'):
-            scan(frame)
-        return local
-
-    def glob(frame, event, arg):
-        return local if (event == 'call' and frame.f_code is code) else None
-    old = _sys.gettrace()
     G.TR = t
-    G.SymMat.__matmul__ = matmul
+    G.SymMat.__matmul__, G.SymMat.__mul__, G.SymMat.__rmul__ = matmul, mul, mul
     saved_kalman = filters.kalman
     try:
         with G.patched(filters):
             filters.np = Np()
             filters.kalman = Kalman
-            _sys.settrace(glob)
             try:
                 if which == 'icov':
                     out = fn('pva0', 2.0, 3.0, 5.0, 7.0, em, gm, am)
                 else:
                     out = fn('pva', 'gyro', 'accel', 'time_delta', em, gm, am)
             finally:
-                _sys.settrace(old)
                 filters.kalman = saved_kalman
         outs = out if isinstance(out, tuple) else (out,)
         rets = []
@@ -308,9 +340,8 @@ def _mx_trace(which):
             rets.append(o._use())
     finally:
         G.TR = None
-        G.SymMat.__matmul__ = orig_matmul
+        G.SymMat.__matmul__, G.SymMat.__mul__, G.SymMat.__rmul__ = orig_matmul, orig_mul, orig_rmul
     if which == 'icov':
-        want = {0: 9.0, 1: 9.0, 2: 9.0, 3: 25.0, 4: 25.0, 5: 25.0, 6: 49.0, 7: 49.0, 8: 4.0}
         want = {InsErrorModel.DRN: 4.0, InsErrorModel.DRE: 4.0, InsErrorModel.DRD: 4.0,
                 InsErrorModel.DVN: 9.0, InsErrorModel.DVE: 9.0, InsErrorModel.DVD: 9.0,
                 InsErrorModel.DROLL: 25.0, InsErrorModel.DPITCH: 25.0, InsErrorModel.DHEADING: 49.0}
@@ -320,12 +351,10 @@ def _mx_trace(which):
     else:
         if info['cpm'] is None or info['cpm'][2] != 'time_delta':
             raise G.TraceError("_compute_error_propagation_matrices: compute_process_matrices not called with time_delta")
-    prefix = which
-    for var_, lst in t.bindings.items():
-        for k, nd in enumerate(lst):
-            if nd.name is None:
-                nd.name = f"{prefix}_{var_}" + (str(k) if len(lst) > 1 else "")
-    e = dict(func=which, prefix=prefix, dims=MX_DIMS)
+    for nd in t.nodes:                      # no names derived from the traced function's local variables
+        if nd.op != 'var':
+            nd.name = None
+    e = dict(func=which, prefix=which, dims=MX_DIMS)
     return e, t, pn, rets
 
 
